@@ -22,6 +22,10 @@ pub fn lock_file(p: &Path) -> std::io::Result<File> {
     std::fs::OpenOptions::new().write(true).create_new(true).open(p)
 }
 
+pub fn open_all(ps: &[&Path]) -> std::io::Result<Vec<File>> {
+    ps.iter().map(File::open).collect()
+}
+
 pub fn sleep_a_bit() {
     std::thread::sleep(std::time::Duration::from_millis(1));
 }
